@@ -37,3 +37,20 @@ add("C07", "exploration", "stress-generated concurrent histories (rapid-drawn pl
     "Plans (goroutines, op mix, yield pattern, GOMAXPROCS, start value) are drawn by rapid, executed against the real sequencer with invocation/response stamps, and the whole history is decided exactly (greedy with exchange argument; the checker is self-tested on illegal histories). Sequential sweeps check value order and RollOverCount = zeros issued after every call; random sequencers must start below 2^15.",
     "Interleavings are chosen by the Go scheduler, not enumerated: absence of a violation speaks only for the schedules that occurred. The race detector only sees races on executed paths.",
     "DESIGN.md 4/C07")
+
+add("C16", "exploration", "exhaustive enumeration of a (length x MTU x fill) rectangle plus property-based testing (rapid) with a concatenation/fragment-size oracle and a scribble (aliasing) relation",
+    "All (len 0-64) x (MTU 1-70) x 4 fill patterns are enumerated for G711/G722 and all short lengths for Opus/OpusPacket; beyond that rapid draws lengths up to 10000 and MTUs up to 65535 biased to k*MTU+-1. The oracle states the split law directly (concatenation, all-but-last = MTU, fragment count) and checks Opus pass-through without aliasing by overwriting either side.",
+    "The rectangle is literally complete; the rest is sampled. nil inputs are covered by C08.",
+    "DESIGN.md 4/C16")
+add("C17", "exploration", "exhaustive enumeration of the finite value domains against hand-written bit layouts, plus property-based testing (rapid) for the 64-bit domains and all input lengths",
+    "AudioLevel, TransportCC, PlayoutDelay (boundary rows quick / all 2^24 pairs thorough, all out-of-range rows), AbsSendTime (2^16 spread quick / all 2^24 thorough) are enumerated against the specification layouts; AbsCaptureTime and 64-bit AbsSendTime values are drawn; every codec is decoded from every length 0..size+2 into receivers preloaded with other values.",
+    "Trusted base: the layouts written out in harness/c17_test.go from the extension specifications. Enumerated sub-domains are listed in the evidence; 64-bit domains are sampled.",
+    "DESIGN.md 4/C17")
+add("C18", "exploration", "property-based testing (rapid) with boundary-concentrated generators against an exact big.Int NTP reference and the stated tolerances",
+    "Instants concentrated around 64 s wrap points, whole seconds and era edges, delays up to the stated bound (incl. those that carry the receive time across a wrap) and offsets up to +-2^31 s are drawn; the oracle is integer arithmetic only: 1 ns for capture time and offset (sign included), [-1 ns, 3816 ns] for the send-time estimate, and exact equality of the NTP / 6.18 encodings with a big.Int reference.",
+    "Trusted base: harness/ref/ntp (big.Int). The domain is sampled (about 2^61 instants x 2^36 delays), boundary regions are generated by construction.",
+    "DESIGN.md 4/C18")
+add("C19", "exploration", "property-based differential testing (rapid) against an independent video-layers-allocation00 encoder/decoder, exhaustive enumeration of all slot assignments, mutation fuzzing of the decoder",
+    "Marshal must equal the reference encoder byte for byte for every drawn or enumerated valid allocation (all 69904 stream x spatial slot assignments), Unmarshal must consume everything and return an equal value also into a used receiver, single-defect invalid allocations must be rejected, and hostile inputs (random, mutated encodings, with an earlier decode) must not panic nor over-report consumed bytes.",
+    "Trusted base: harness/ref/vla and ref/leb128 (my reading of the specification; shared bitmask only when every stream below the count has the same mask).",
+    "DESIGN.md 4/C19")
